@@ -210,6 +210,16 @@ func (e *Engine) evalEmitOnce(runs []emitRun) []emitObl {
 			}
 			if r.entry.Lang != "rust" {
 				add(base+":pair", []string{"C05"}, all["in.mp0.Key"] && all["in.mp1.Key"] && all["in.mp2.Key"], "every key of the match table must reach the dispatch table")
+			} else {
+				// payload enum: one variant per distinct target packet (two keys select packet A in this cell)
+				ok := true
+				for _, p := range r.paths {
+					lt := literalText(p.text)
+					if strings.Count(lt, "A(A)") != 1 || strings.Count(lt, "B(B)") != 1 {
+						ok = false
+					}
+				}
+				add(base+":variants", []string{"C05", "C07"}, ok, "the payload enum must declare exactly one variant per distinct target packet")
 			}
 			continue
 		}
@@ -285,7 +295,7 @@ func (e *Engine) evalEmitOnce(runs []emitRun) []emitObl {
 			continue
 		}
 		a, b := setKeys(m["enc"]), setKeys(m["dec"])
-		add(fmt.Sprintf("EMIT:%s:sym:%s", k.lang, k.cell), []string{"C02", "C03"}, strings.Join(a, "|") == strings.Join(b, "|"),
+		add(fmt.Sprintf("EMIT:%s:sym:%s", k.lang, k.cell), []string{"C01", "C02", "C03"}, strings.Join(a, "|") == strings.Join(b, "|"),
 			fmt.Sprintf("order of configuration atoms: encode %v, decode %v", a, b))
 	}
 	return obls
